@@ -1119,11 +1119,14 @@ namespace GeographicLib {
     //       = sqrt(sq(calp0) - sq(sbet2)) / cbet2
     // and subst for calp0 and rearrange to give (choose positive sqrt
     // to give alp2 in [0, pi/2]).
+    // Roundoff in sbet1, sbet2 can leave |bet2| > |bet1| by an ulp; so guard
+    // against a tiny negative argument to sqrt (NaNs are passed through).
+    real calp2a = Math::sq(calp1 * cbet1) +
+      (cbet1 < -sbet1 ?
+       (cbet2 - cbet1) * (cbet1 + cbet2) :
+       (sbet1 - sbet2) * (sbet1 + sbet2));
     calp2 = cbet2 != cbet1 || fabs(sbet2) != -sbet1 ?
-      sqrt(Math::sq(calp1 * cbet1) +
-           (cbet1 < -sbet1 ?
-            (cbet2 - cbet1) * (cbet1 + cbet2) :
-            (sbet1 - sbet2) * (sbet1 + sbet2))) / cbet2 :
+      sqrt(calp2a < 0 ? real(0) : calp2a) / cbet2 :
       fabs(calp1);
     // tan(bet2) = tan(sig2) * cos(alp2)
     // tan(omg2) = sin(alp0) * tan(sig2).
